@@ -29,6 +29,31 @@ import (
 // InlineLimit bounds the expanded size (CFG nodes) of a callee that is expanded in place.
 const InlineLimit = 40
 
+// vocabulary: the pure accessors and predicates the rule templates mention by name. They stay
+// uninterpreted symbols in facts (getOrdinal(p), getPodRevision(p), ...): expanding their bodies
+// would replace the symbol the rules reason with by facts about its implementation. Any other
+// small helper, in particular one that a refactoring introduces, is expanded.
+var vocabulary = map[string]bool{
+	load.CtrlPkg + ".getOrdinal":              true,
+	load.CtrlPkg + ".getParentName":           true,
+	load.CtrlPkg + ".getParentNameAndOrdinal": true,
+	load.CtrlPkg + ".getPodRevision":          true,
+	load.CtrlPkg + ".identityMatches":         true,
+	load.CtrlPkg + ".storageMatches":          true,
+	load.CtrlPkg + ".nextRevision":            true,
+	load.CtrlPkg + ".shouldSyncLabels":        true,
+	load.CtrlPkg + ".controllerRevisionName":  true,
+	load.K8sPkg + ".ControllerRevisionName":   true,
+	load.K8sPkg + ".IsPodReadyConditionTrue":  true,
+	load.K8sPkg + ".GetPodCondition":          true,
+	load.K8sPkg + ".GetPodReadyCondition":     true,
+	load.K8sPkg + ".GetPodConditionFromList":  true,
+	load.K8sPkg + ".EqualRevision":            true,
+	load.K8sPkg + ".FindEqualRevisions":       true,
+	load.HelperPkg + ".GetPausedReconcile":    true,
+	load.HelperPkg + ".GetDeleteSlots":        true,
+}
+
 // InlSite is one expanded call.
 type InlSite struct {
 	Call    *ast.CallExpr
@@ -134,11 +159,9 @@ func (e *Engine) inlineInfo(fn *types.Func) *inlDecision {
 		d.why = "single return expression (handled as a term)"
 		return d
 	}
-	if e.Sum != nil && e.Sum.Pure[fn] && sig.Results().Len() == 1 {
-		if _, basic := sig.Results().At(0).Type().Underlying().(*types.Basic); basic {
-			d.why = "pure accessor or predicate (stays a symbol of the rules' vocabulary)"
-			return d
-		}
+	if vocabulary[fn.FullName()] {
+		d.why = "vocabulary of the rules (stays a symbol)"
+		return d
 	}
 	bad := ""
 	ast.Inspect(fi.Decl.Body, func(n ast.Node) bool {
